@@ -769,7 +769,11 @@ impl<'a> Lexer<'a> {
             if self.state != LexingState::NoToken {
                 trace!("Pushing new token: {:?}", self.current_token_type);
 
-                self.result = self.can_create_valid_token();
+                // keep an error recorded earlier (e.g. a character that cannot start a token)
+                if self.result.is_ok() {
+                    self.result = self.can_create_valid_token();
+                }
+
                 if self.result.is_ok() {
                     let token = LexerToken::new(
                         self.current_characters.clone(),
@@ -831,7 +835,12 @@ impl<'a> Lexer<'a> {
                         next_token = Some(t);
                         break;
                     }
-                    None => (),
+                    None => {
+                        // invalid lexing state, do not continue consuming characters
+                        if self.result.is_err() {
+                            break;
+                        }
+                    }
                 },
                 None => {
                     self.at_end = true;
